@@ -27,8 +27,16 @@ fn stretch(fam: KsfFamily, arg: &KsfArg, y: &[u8]) -> Vec<u8> {
     match ksf_effective(arg, fam) {
         KsfArg::Sim(t) => simksf_eval(t, y, y.len()),
         KsfArg::Identity => y.to_vec(),
-        KsfArg::Argon2 { m, t, p } => {
-            let a = argon2::Argon2::new(argon2::Algorithm::Argon2id, argon2::Version::V0x13, argon2::Params::new(m, t, p, None).unwrap());
+        KsfArg::Argon2Alg { alg, v10, m, t, p } => {
+            let a = argon2::Argon2::new(
+                match alg {
+                    0 => argon2::Algorithm::Argon2d,
+                    1 => argon2::Algorithm::Argon2i,
+                    _ => argon2::Algorithm::Argon2id,
+                },
+                if v10 { argon2::Version::V0x10 } else { argon2::Version::V0x13 },
+                argon2::Params::new(m, t, p, None).unwrap(),
+            );
             let mut out = vec![0u8; y.len()];
             a.hash_password_into(y, &[0u8; argon2::RECOMMENDED_SALT_LEN], &mut out).unwrap();
             out
